@@ -770,6 +770,34 @@ def self_append_cases():
     return out
 
 
+def int_values():
+    """integer appends at every boundary of the digit loop and of any narrower intermediate type: 2^k - 1, 2^k, 2^k + 1 (k = 0..64),
+    10^k - 1, 10^k, 10^k + 1 (k = 0..19), numbers whose decimal text STARTS with the digits of 2^32 / 2^31 / 2^16 (a quotient that hits the
+    boundary inside the loop - seeded C17-r8: `n > 2^32` instead of `>=` before narrowing to 32 bits), and their negations"""
+    vs = set()
+    for k in range(0, 65):
+        vs.update((2 ** k - 1, 2 ** k, 2 ** k + 1))
+    for k in range(0, 20):
+        vs.update((10 ** k - 1, 10 ** k, 10 ** k + 1))
+    for b in (2 ** 32, 2 ** 31, 2 ** 16, 2 ** 32 - 1, 2 ** 32 + 1):
+        for tail in ('7', '123', '0', '00', '9999999'):
+            vs.add(int(str(b) + tail))
+    return sorted(vs)
+
+
+def int_append_cases():
+    out = []
+    for v in int_values():
+        for kind, cap in ((0, 0), (2, 24), (2, 5)):
+            if v < 2 ** 64:
+                out.append((encode(kind, cap, [], [(5, v - 2 ** 64 if v >= 2 ** 63 else v)]), 'unsigned'))
+            if v < 2 ** 63:
+                out.append((encode(kind, cap, [], [(4, v)]), 'signed'))
+            if 0 < v <= 2 ** 63:
+                out.append((encode(kind, cap, [], [(1, [120]), (4, -v)]), 'signed-negative'))
+    return out
+
+
 def gen(seed, tier):
     rnd = random.Random(seed * 1000003 + 17)
     total = {'quick': 6000, 'thorough': 300000, 'search': 6000}.get(tier, 6000)
@@ -780,6 +808,9 @@ def gen(seed, tier):
     selfs = self_append_cases()
     out += [(c, {'kind': 'self-append-' + k}) for c, k in selfs]
     total += len(selfs)
+    ints = int_append_cases()
+    out += [(c, {'kind': 'int-boundary-' + k}) for c, k in ints]
+    total += len(ints)
     g = Gen(rnd)
     while len(out) < total:
         kind = rnd.choice([0, 1, 2, 2, 2, 3, 3])
